@@ -7,7 +7,7 @@
 From Coq Require Import Reals Lra List.
 From Coquelicot Require Import Coquelicot.
 Require Import Cox.Num.Ops Cox.Model.Curved Cox.Model.Special Cox.Gen.Scalars
-  Cox.Thm.GenScalarsThm Cox.Thm.CurvedIntegrals Cox.Thm.PerimeterThm.
+  Cox.Thm.GenScalarsThm Cox.Thm.CurvedIntegrals Cox.Thm.PerimeterThm Cox.Thm.EllipseIso.
 Local Open Scope R_scope.
 
 (* ---------- the code's closed forms are the defining integrals ---------- *)
@@ -117,6 +117,17 @@ Theorem C10_iq_at_most_one_partial :
   forall a b cx cy cz, ellipse_iq a b cx cy cz <= 1 /\ forall r, circle_iq r cx cy cz = 1 /\ sphere_iq r cx cy cz = 1.
 Proof. intros. split; [apply gen_ellipse_iq_le_1 | intros; split; reflexivity]. Qed.
 Print Assumptions C10_iq_at_most_one_partial.
-(* partial: "iq = 1 ONLY for the circle" (isoperimetric inequality) and the identification of
-   4 a E(e^2) with the arc-length integral / of Legendre's ellipsoid-area formula with the surface
-   integral are NOT proved; they are covered by Interval-certified samples and quadrature. *)
+(* the clamp `min(., 1)` of the source is never active: for all positive semi-axes the un-clamped quotient 4 pi A / P^2 is at most 1
+   (P >= pi (a + b) >= 2 pi sqrt(a b)), so ellipse_iq IS that quotient; and it equals 1 exactly for the circle. *)
+Theorem C10_ellipse_isoperimetric :
+  forall a b cx cy cz, 0 < a -> 0 < b ->
+    PI * (a + b) <= ellipse_perimeter a b cx cy cz
+    /\ ellipse_iq a b cx cy cz = 4 * PI * ellipse_area a b cx cy cz / (ellipse_perimeter a b cx cy cz) ^ 2
+    /\ (ellipse_iq a b cx cy cz = 1 <-> a = b).
+Proof.
+  intros a b cx cy cz Ha Hb. split; [exact (ellipse_perimeter_lower_any a b cx cy cz Ha Hb)|].
+  split; [exact (ellipse_iq_is_raw a b cx cy cz Ha Hb) | exact (ellipse_iq_one_iff_circle a b cx cy cz Ha Hb)].
+Qed.
+Print Assumptions C10_ellipse_isoperimetric.
+(* not proved: the identification of Legendre's ellipsoid-area formula with the surface integral (Interval-certified samples and
+   quadrature cover it). *)
